@@ -283,76 +283,194 @@ def check_stale(ctx):
 
 
 def check_dir_mtime(ctx):
+    """The directory freshness test: the newest modification time over the
+    directory itself and its entries is compared strictly with the
+    remembered one, and then remembered."""
+    from ..dte import inline_helpers
     prog = ctx.prog
     r = roles(ctx)
     f = r.dir_updated
     W = ctx.where(f.module, f.node)
+    F = W.split(':')[0]
     path_p = f.params[-1]
-    t = Table(prog, f)
-    # candidates include the directory itself and its entries
-    cand = None
-    for n in ast.walk(f.node):
-        if isinstance(n, ast.Call) and U(n.func) == 'max' and n.args:
-            cand = n
-    ok_self = ok_entries = False
-    if cand is not None:
-        src = cand.args[0]
-        if isinstance(src, ast.Name):
-            name = src.id
-            for a in ast.walk(f.node):
-                if isinstance(a, ast.Assign) and U(a.targets[0]) == name:
-                    src = a.value
-        txt = U(src)
+    t = Table(prog, f, inline=inline_helpers(
+        prog, modules={POLICY}, exclude={r.load_rules.qual, r.loader.qual}),
+        max_depth=4)
+    en = t.en
 
-        def has_self(x):
-            if isinstance(x, ast.BinOp) and isinstance(x.op, ast.Add):
-                return has_self(x.left) or has_self(x.right)
-            if isinstance(x, (ast.List, ast.Tuple)):
-                return any(isinstance(e, ast.Name) and e.id == path_p
-                           for e in x.elts)
-            return False
-        ok_self = has_self(src)
-        ok_entries = 'os.listdir(%s)' % path_p in txt or 'scandir' in txt
-        key = kwarg(cand, 'key')
-        newest = key is not None and U(key).endswith('getmtime')
-    else:
-        newest = False
+    def is_getmtime(x):
+        return x is not None and (prog.resolve(f.module, x) or '').endswith(
+            'os.path.getmtime')
+
+    def is_cached(x):
+        txt = U(x)
+        return "get('mtime'" in txt or "['mtime']" in txt
+
+    def candidates(p, e, depth=8):
+        """{'self', 'entries', '?..'} descriptors of the elements of e"""
+        e0 = e
+        if depth <= 0:
+            return {'?'}
+        if isinstance(e, ast.Name) and e.id.startswith('SYM_m'):
+            out = candidates(p, en.defs.get(e.id), depth - 1) if isinstance(
+                en.defs.get(e.id), ast.AST) else {'?'}
+            for ev in p.events:
+                mc = method_call(ev.node) if ev.kind == 'call' else None
+                if mc and U(mc[0]) == e.id and ev.node.args:
+                    if mc[1] == 'extend':
+                        out |= candidates(p, ev.node.args[0], depth - 1)
+                    elif mc[1] == 'append':
+                        out |= elem_kind(ev.node.args[0], None)
+                    elif mc[1] == 'insert' and len(ev.node.args) == 2:
+                        out |= elem_kind(ev.node.args[1], None)
+            return out
+        if isinstance(e, ast.Name) and isinstance(en.defs.get(e.id),
+                                                  ast.AST):
+            return candidates(p, en.defs[e.id], depth - 1)
+        if isinstance(e, ast.BinOp) and isinstance(e.op, ast.Add):
+            return candidates(p, e.left, depth - 1) | candidates(
+                p, e.right, depth - 1)
+        if isinstance(e, (ast.List, ast.Tuple, ast.Set)):
+            out = set()
+            for x in e.elts:
+                if isinstance(x, ast.Starred):
+                    out |= candidates(p, x.value, depth - 1)
+                else:
+                    out |= elem_kind(x, None)
+            return out
+        if isinstance(e, (ast.ListComp, ast.GeneratorExp, ast.SetComp)) \
+                and len(e.generators) == 1:
+            return elem_kind(e.elt, e.generators[0])
+        if isinstance(e, ast.Call) and U(e.func) in (
+                'list', 'tuple', 'set', 'sorted', 'iter') and e.args:
+            return candidates(p, e.args[0], depth - 1)
+        if isinstance(e, ast.Call) and U(e.func) in (
+                'itertools.chain', 'chain'):
+            out = set()
+            for x in e.args:
+                out |= candidates(p, x, depth - 1)
+            return out
+        return {'?' + U(e0)[:40]}
+
+    def elem_kind(x, gen):
+        x = en.expand(x)
+        if isinstance(x, ast.Name) and x.id == path_p:
+            return {'self'}
+        if isinstance(x, ast.Call) and (prog.resolve(f.module, x.func) or ''
+                                        ).endswith('os.path.join') and len(
+                x.args) == 2 and U(x.args[0]) == path_p and gen is not None \
+                and U(x.args[1]) == U(gen.target) and not gen.ifs:
+            it = en.expand(gen.iter)
+            if isinstance(it, ast.Call) and (prog.resolve(
+                    f.module, it.func) or '').endswith('os.listdir') and \
+                    it.args and U(it.args[0]) == path_p:
+                return {'entries'}
+        if isinstance(x, ast.Attribute) and x.attr == 'path' and \
+                gen is not None and U(x.value) == U(gen.target) and \
+                not gen.ifs:
+            it = en.expand(gen.iter)
+            if isinstance(it, ast.Call) and (prog.resolve(
+                    f.module, it.func) or '').endswith('os.scandir'):
+                return {'entries'}
+        return {'?' + U(x)[:40]}
+
+    def newest_over(p, m):
+        """candidate descriptors when m is the newest getmtime over a
+        collection, else None"""
+        from ..pathutil import deref
+        m = deref(en, m)
+        # getmtime(max(F, key=getmtime))
+        if isinstance(m, ast.Call) and is_getmtime(m.func) and len(
+                m.args) == 1:
+            inner = deref(en, m.args[0])
+            if isinstance(inner, ast.Call) and U(inner.func) == 'max' and \
+                    len(inner.args) == 1 and is_getmtime(kwarg(inner, 'key')):
+                return candidates(p, inner.args[0])
+            return None
+        # max(getmtime(c) for c in F) / max(map(getmtime, F))
+        if isinstance(m, ast.Call) and U(m.func) == 'max' and len(
+                m.args) == 1 and not m.keywords:
+            a = m.args[0]
+            if isinstance(a, (ast.GeneratorExp, ast.ListComp)) and len(
+                    a.generators) == 1 and not a.generators[0].ifs and \
+                    isinstance(a.elt, ast.Call) and is_getmtime(
+                        a.elt.func) and len(a.elt.args) == 1 and U(
+                            a.elt.args[0]) == U(a.generators[0].target):
+                return candidates(p, a.generators[0].iter)
+            if isinstance(a, ast.Call) and U(a.func) == 'map' and len(
+                    a.args) == 2 and is_getmtime(a.args[0]):
+                return candidates(p, a.args[1])
+        return None
+
+    ok_cmp = ok_upd = False
+    cand = None
+    n_true = 0
+    why_cmp = 'no path reports an update'
+    for p in t.paths:
+        if not (p.outcome.kind == 'return' and is_const(p.outcome.expr,
+                                                        True)):
+            continue
+        n_true += 1
+        m = None
+        for c in p.conds:
+            if c.kind != 'test':
+                continue
+            x = c.expr
+            if not (isinstance(x, ast.Compare) and len(x.ops) == 1):
+                continue
+            l, rr, op = x.left, x.comparators[0], type(x.ops[0]).__name__
+            if is_cached(en.expand(rr)) and not is_cached(en.expand(l)):
+                side = 'left'
+            elif is_cached(en.expand(l)) and not is_cached(en.expand(rr)):
+                side = 'right'
+                l, rr = rr, l
+                op = {'Gt': 'Lt', 'Lt': 'Gt', 'GtE': 'LtE',
+                      'LtE': 'GtE'}.get(op, op)
+            else:
+                continue
+            if not c.pol:
+                op = {'Gt': 'LtE', 'LtE': 'Gt', 'Lt': 'GtE',
+                      'GtE': 'Lt'}.get(op, 'not' + op)
+            if op == 'Gt':
+                m = l
+                ok_cmp = True
+            else:
+                why_cmp = 'an update is reported when the new time is %s ' \
+                    'the remembered one' % op
+        for e in p.events:
+            if e.kind == 'store' and isinstance(e.node, ast.Subscript) and \
+                    is_const(e.node.slice, 'mtime') and m is not None and \
+                    U(en.expand(e.value)) == U(en.expand(m)):
+                ok_upd = True
+        if m is not None and not is_const(en.expand(m)):
+            got = newest_over(p, m)
+            if got is not None:
+                cand = got if cand is None else (cand & got)
+    ctx.count(len(t.paths))
+    ok_self = cand is not None and 'self' in cand
+    ok_entries = cand is not None and 'entries' in cand
+    other = sorted(x for x in (cand or ()) if x.startswith("?"))
+    ctx.extra["dir_mtime_candidates"] = sorted(cand or ())
     ctx.ob('C10.DIR-MTIME', ok_self, W, f.qual, 'candidates include the '
            'directory', 'the directory\'s own mtime is considered (deleted '
            'files change it)' if ok_self else
            'the directory\'s own modification time is not considered: a '
            'deleted override file goes unnoticed')
-    ctx.ob('C10.DIR-MTIME', ok_entries and newest, W, f.qual,
+    ctx.ob('C10.DIR-MTIME', ok_entries and not other, W, f.qual,
            'candidates include the entries',
            'the newest mtime over all entries is used'
-           if ok_entries and newest else
+           if ok_entries and not other else
            'the newest modification time over the directory entries is not '
-           'what is compared')
-    # strict comparison with the cached value and update
-    ok_cmp = ok_upd = False
-    for p in t.paths:
-        if p.outcome.kind == 'return' and is_const(p.outcome.expr, True):
-            for c in p.conds:
-                x = t.expand(c.expr)
-                if c.kind == 'test' and c.pol and isinstance(
-                        x, ast.Compare) and isinstance(x.ops[0], ast.Gt) \
-                        and 'getmtime' in U(x.left) or (
-                            c.kind == 'test' and c.pol and isinstance(
-                                x, ast.Compare) and isinstance(
-                                    x.ops[0], ast.Gt)
-                            and "get('mtime'" in U(x.comparators[0])):
-                    ok_cmp = True
-            for e in p.events:
-                if e.kind == 'store' and isinstance(
-                        e.node, ast.Subscript) and is_const(e.node.slice,
-                                                            'mtime'):
-                    ok_upd = True
+           'what is compared%s' % (' (unrecognised candidates %s)' % other
+                                   if other else ''))
     ctx.ob('C10.DIR-MTIME', ok_cmp and ok_upd, W, f.qual,
            'newer-than-cached test',
            'reports an update exactly when the newest mtime exceeds the '
            'remembered one, and remembers it' if ok_cmp and ok_upd else
            'the directory freshness test does not compare strictly against '
-           'and then update the remembered mtime')
+           'and then update the remembered mtime (%s)' % (
+               why_cmp if not ok_cmp else 'the compared time is not the '
+               'one remembered'))
 
 
 def _load_atoms(t, p):
